@@ -276,8 +276,9 @@ class MindsDBLexer(Lexer):
     SEMICOLON = r'\;'
 
     # Operators
-    JSON_GET = r'->'
+    # the longer operator first: the first matching alternative wins
     JSON_GET_STR = r'->>'
+    JSON_GET = r'->'
     PLUS = r'\+'
     MINUS = r'-'
     MATCH = r'~'
